@@ -195,7 +195,8 @@ Section Spec.
      client half-close found while building this check).  Each is a predicate on the event and the
      specification state BEFORE the event.
        wrap : a data segment of a not yet reported direction whose raw sequence number is not above
-              that direction's ISN (the sequence space wrapped between the SYN and this segment)
+              that direction's ISN (the sequence space wrapped between the SYN and this segment), or
+              that starts 2^31 - 1 bytes or more beyond the ISN
        gap  : ... that starts beyond the end of the gap-free prefix (leaves a hole before it)
        dup  : ... that carries a byte already received (retransmission / overlap)
        fin  : a client data segment with FIN or RST after which request and response are not both
@@ -206,9 +207,9 @@ Section Spec.
     else
       let off := seq_offset isn seq in
       let cur := N.of_nat (length (stream_prefix d)) in
-      (seq <=? isn, cur <? off, any_placed (d_map d) off (length pay)).
+      ((seq <=? isn) || (two31 - 1 <=? off), cur <? off, any_placed (d_map d) off (length pay)).
 
-  (* (wrap, gap, dup, fin) of one event; cs = state before, cs1 = state after *)
+  (* (far|wrap, gap, dup, fin) of one event; cs = state before, cs1 = state after *)
   Definition classify_strict (cs : list sconn) (e : event) (cs1 : list sconn) : bool * bool * bool * bool :=
     match conn_lookup (e_conn e) cs, e_pay e with
     | Some c, _ :: _ =>
@@ -240,12 +241,15 @@ Section Spec.
      KNOWN-DEFECT classes (DESIGN.md section 5 #14, and the client half-close found while building
      this check): the events on which the unchanged code deviates.  Each is a predicate on the
      event and the specification state before the event.
-       wrap : a data segment of a not yet reported direction whose raw sequence number is not above
-              that direction's ISN (the sequence space wrapped between the SYN and this segment)
+       far  : a data segment of a not yet reported direction that starts 2^31 - 1 bytes or more beyond
+              the ISN: the signed 32-bit distance by which segments are ordered (serial number
+              arithmetic) cannot tell "far ahead" from "behind".  Not a repairable defect but the
+              limit of 32-bit sequence numbers; a wrapping sequence space as such is no longer in
+              any class (repaired, fix C09-seq-wrap).
        gap  : ... after which the received segments are pairwise disjoint, a hole is open (the
               gap-free prefix is shorter than the bytes received) AND the received bytes, sorted by
-              offset and concatenated across the hole, are accepted by the head parser -- a head
-              assembled from non-contiguous segments.
+              offset and concatenated across the hole, are accepted by the head parser although the
+              gap-free prefix is not -- a head assembled from non-contiguous segments.
               An out-of-order arrival whose squeezed bytes do not parse is NOT in this class.
        dup  : ... that carries a byte already received without being an exact retransmission (same
               offset, same bytes) of a received segment: a re-segmented retransmission / overlap.
@@ -263,11 +267,11 @@ Section Spec.
       let n := (d_recv d + length pay)%nat in
       let sg := d_segs d ++ [(off, pay)] in
       let hole := N.of_nat (length (prefix_from m n 0)) <? N.of_nat n in
-      (seq <=? isn,
-       segs_disjoint_b sg && hole && opt_some (parse (squeezed sg)),
+      (two31 - 1 <=? off,
+       segs_disjoint_b sg && hole && opt_some (parse (squeezed sg)) && negb (opt_some (parse (prefix_from m n 0))),
        any_placed (d_map d) off (length pay) && negb (exact_dup (d_segs d) off pay)).
 
-  (* (wrap, gap, dup, fin) of one event; cs = state before, cs1 = state after *)
+  (* (far|wrap, gap, dup, fin) of one event; cs = state before, cs1 = state after *)
   Definition classify (cs : list sconn) (e : event) (cs1 : list sconn) : bool * bool * bool * bool :=
     match conn_lookup (e_conn e) cs, e_pay e with
     | Some c, _ :: _ =>
@@ -293,7 +297,7 @@ Section Spec.
                 (w || w2, g || g2, u || u2, f || f2)
     end.
   Definition known_classes (tr : list event) : bool * bool * bool * bool := krun [] tr.
-  Definition known_wrap (tr : list event) : bool := let '(w, _, _, _) := known_classes tr in w.
+  Definition known_far (tr : list event) : bool := let '(w, _, _, _) := known_classes tr in w.
   Definition known_gap (tr : list event) : bool := let '(_, g, _, _) := known_classes tr in g.
   Definition known_dup (tr : list event) : bool := let '(_, _, u, _) := known_classes tr in u.
   Definition known_fin (tr : list event) : bool := let '(_, _, _, f) := known_classes tr in f.
